@@ -146,6 +146,36 @@ def run(run):
                           "oracle_verdict": "a valid statement is answered differently after many rejected inputs: %s (fresh process: %s)" % (a[:80], fresh[rq][:80])})
             break
     run.add_stream("no trace, long history in one process", len(seq), len(deep_bad) + len(deep_ok), [])
+    # 4. long FLAT inputs (no nesting at all): machine-written filters, lists and scripts of 1500 items end in a tree, never in a RecursionError
+    from . import c19 as _c19
+    FLAT = ["select items", "operator chain", "mixed precedence chain", "AND chain", "OR of NOTs", "insert rows", "statements", "joins", "case arms", "IN list",
+            "function arguments", "union branches", "with tables", "columns of create table"]
+    extra_flat = {"XOR chain": lambda n: "SELECT 1 FROM t WHERE " + " XOR ".join("a%d" % i for i in range(n)),
+                  "&& and || chain": lambda n: "SELECT 1 FROM t WHERE " + " ".join("a%d %s" % (i, ["&&", "||"][i % 2]) for i in range(n)) + " z",
+                  "comparison chain": lambda n: "SELECT 1 FROM t WHERE " + " = ".join("a%d" % i for i in range(n)),
+                  "keyword predicate chain": lambda n: "SELECT 1 FROM t WHERE a " + " ".join("IS NOT NULL" for _ in range(min(n, 150))),   # longer: K-RECURSION
+                  "NOT chain": lambda n: "SELECT 1 FROM t WHERE " + "NOT " * min(n, 400) + "a",
+                  "unary chain": lambda n: "SELECT " + "- " * min(n, 400) + "a FROM t",
+                  "array indices": lambda n: "SELECT a" + "[1]" * min(n, 400) + " FROM t",
+                  "lateral views": lambda n: "SELECT a FROM t " + " ".join("LATERAL VIEW explode(x%d) v%d AS c%d" % (i, i, i) for i in range(n)),
+                  "table options": lambda n: "CREATE TABLE t (a INT) " + " ".join("COMMENT='c%d'" % i for i in range(n)),
+                  "column attributes": lambda n: "CREATE TABLE t (a INT " + "NOT NULL " * n + ")",
+                  "alter expressions": lambda n: "ALTER TABLE t " + ", ".join("ADD c%d INT" % i for i in range(n)),
+                  "update columns": lambda n: "UPDATE t SET " + ", ".join("c%d = %d" % (i, i) for i in range(n)),
+                  "group by / order by items": lambda n: "SELECT 1 FROM t GROUP BY " + ", ".join("c%d" % i for i in range(n)) + " ORDER BY " + ", ".join("c%d DESC" % i for i in range(n))}
+    fl = [(k, _c19.FAMILIES[k]) for k in FLAT] + list(extra_flat.items())
+    N_FLAT = 1500
+    freqs = [sqlgen.parse_request("statements", "HIVE" if k == "lateral views" else "MYSQL", f(N_FLAT)) for k, f in fl]
+    fim = core.run_impl(freqs, timeout=1800)
+    fmo = core.run_model(freqs)
+    for (k, f), rq, a, m in zip(fl, freqs, fim, fmo):
+        v = judge(a)
+        if v:
+            fails.append({"kind": "input", "stream": "long flat inputs", "text": f(N_FLAT)[:300] + " ...", "request": rq, "entry": "statements", "dialect": rq.split()[3], "family": k,
+                          "oracle_verdict": "a flat %r input of %d items: %s" % (k, N_FLAT, v)})
+        elif a.split(" ")[0:2] != m.split(" ")[0:2] or (a.startswith("OK") and a != m):
+            dis.append({"kind": "input", "stream": "long flat inputs", "request": rq, "text": f(N_FLAT)[:300], "model": m[:300], "observed": a[:300]})
+    run.add_stream("long flat inputs", len(freqs), len(freqs), [{"family": k, "items": N_FLAT} for k, _ in fl[:3]])
     run.cov["rule"] = ("malformed stream: prefixes (character and token granularity), deletion, duplication, adjacent swap, replacement by probe tokens of generated "
                        "statements (nesting depth <= 30) through parse_statements; random token soups and expression prefixes through EVERY public parse_* entry "
                        "point; every outcome must be a tree or LexicalParseError / SqlParseError / NotSupportError; 30 s alarm per request; valid parses "
@@ -155,8 +185,9 @@ def run(run):
         if k["id"] == "K-RECURSION" and k.get("status") == "open":
             w = k["witness"]
             a = core.run_impl([sqlgen.parse_request("statements", w["dialect"], w["text"])])[0]
-            if a == "ERR Recursion":
-                run.known("K-RECURSION: %s (witness: %d nested brackets -> RecursionError)" % (k["description"], nest_depth(w["text"])))
+            a2 = core.run_impl([sqlgen.parse_request("statements", "MYSQL", "SELECT 1 FROM t WHERE a " + " ".join("IS NOT NULL" for _ in range(1500)))])[0]
+            if a == "ERR Recursion" or a2 == "ERR Recursion":
+                run.known("K-RECURSION: %s (witness: %d nested brackets -> %s; 1500 chained keyword predicates -> %s)" % (k["description"], nest_depth(w["text"]), a[4:], a2[:14].replace("ERR ", "")))
     stmt.conclude(run, proofs_ok, dis, fails, "Props/C07.v", "outcome-kind oracle on the implementation (every parse_* entry point)")
 
 
